@@ -138,7 +138,7 @@ def check(prop, spec, tier, seed, replay=None):
                 if tier == "quick" and inst.get("tier") == "thorough":
                     continue
                 cfg = inst["cfg_quick"] if (tier == "quick" and "cfg_quick" in inst) else inst["cfg"]
-                want_cov = tier == "thorough" and not inst.get("expect_violation")
+                want_cov = tier == "thorough" and not inst.get("expect_violation") and inst.get("coverage", False)
                 r = tlc.model_check(inst["module"], cfg, scratch, timeout=inst.get("timeout", 3000),
                                     simulate=inst.get("simulate"), coverage=want_cov)
                 if want_cov:      # vacuity control: every action of the instance must have been taken
